@@ -609,7 +609,8 @@ type lenPatch struct {
 	Fn     *FuncInfo
 	V      *types.Var
 	Store  ast.Stmt
-	Callee bool // V is a parameter: sites are calls to Fn
+	VIdent *ast.Ident // the use of V in the store
+	Callee bool       // V is a parameter: sites are calls to Fn
 }
 
 type lenSite struct {
@@ -626,6 +627,32 @@ func (p *Program) lengthPatch() *lenPatch {
 		}
 		info := fi.Pkg.TypesInfo
 		ast.Inspect(fi.Decl.Body, func(x ast.Node) bool {
+			// the same four bytes written with encoding/binary: PutUint32(x.buf[pos:], uint32(V))
+			if es, isES := x.(*ast.ExprStmt); isES && out == nil {
+				if c, isC := es.X.(*ast.CallExpr); isC && len(c.Args) == 2 && strings.HasSuffix(calleeName(info, c), "ndian).PutUint32") {
+					dst := ast.Unparen(c.Args[0])
+					if sl, isSl := dst.(*ast.SliceExpr); isSl {
+						dst = ast.Unparen(sl.X)
+					}
+					if fv := fieldOf(info, dst); fv != nil && fv == bufField {
+						if id, isId := ast.Unparen(stripAllConv(info, c.Args[1])).(*ast.Ident); isId {
+							if v, _ := info.Uses[id].(*types.Var); v != nil {
+								lp := &lenPatch{Fn: fi, V: v, Store: es, VIdent: id}
+								if fi.Obj != nil {
+									sig := fi.Obj.Type().(*types.Signature)
+									for i := 0; i < sig.Params().Len(); i++ {
+										if sig.Params().At(i) == v {
+											lp.Callee = true
+										}
+									}
+								}
+								out = lp
+							}
+						}
+					}
+				}
+				return true
+			}
 			as, ok := x.(*ast.AssignStmt)
 			if !ok || out != nil || len(as.Lhs) != 1 || len(as.Rhs) != 1 || as.Tok != token.ASSIGN {
 				return true
@@ -649,7 +676,7 @@ func (p *Program) lengthPatch() *lenPatch {
 			if v == nil {
 				return true
 			}
-			lp := &lenPatch{Fn: fi, V: v, Store: as}
+			lp := &lenPatch{Fn: fi, V: v, Store: as, VIdent: id}
 			if fi.Obj != nil {
 				sig := fi.Obj.Type().(*types.Signature)
 				for i := 0; i < sig.Params().Len(); i++ {
@@ -680,12 +707,7 @@ func (lp *lenPatch) sites(p *Program, fn *FuncInfo) []lenSite {
 		return out
 	}
 	if fn == lp.Fn {
-		id := ast.NewIdent(lp.V.Name())
-		sh := stripAllConv(fn.Pkg.TypesInfo, lp.Store.(*ast.AssignStmt).Rhs[0]).(*ast.BinaryExpr)
-		if x, ok := ast.Unparen(sh.X).(*ast.Ident); ok {
-			id = x
-		}
-		out = append(out, lenSite{lp.Store, id})
+		out = append(out, lenSite{lp.Store, lp.VIdent})
 	}
 	return out
 }
